@@ -18,6 +18,10 @@ import (
 type c33Op struct {
 	Call  *clsim.Call `json:"call,omitempty"`
 	AdvNs int64       `json:"adv_ns,omitempty"`
+	// Stray (Sleep calls): a late duplicate of an earlier PINGRESP (the gateway had answered a
+	// retransmitted keep-alive PINGREQ too) arrives after the client's DISCONNECT and before the
+	// gateway's answer to it.
+	Stray bool `json:"stray,omitempty"`
 }
 
 type c33Case struct {
@@ -60,6 +64,10 @@ func genC33(t *rapid.T) c33Case {
 			case 0, 1:
 				cl = clsim.Call{API: "Sleep", DurMs: rapid.SampledFrom([]int{1000, 1000, 2500, 7000}).Draw(t, "sleep_ms")}
 				active = false
+				if rapid.IntRange(0, 3).Draw(t, "stray_pingresp") == 0 {
+					c.Ops = append(c.Ops, c33Op{Call: &cl, Stray: true})
+					continue
+				}
 			case 2:
 				// Disconnect ends the client (a new Dial would be needed): it is the last call
 				cl = clsim.Call{API: "Disconnect"}
@@ -103,7 +111,12 @@ func runC33(c c33Case) (r vf.Result) {
 	dropped, delayed := false, false
 	var late sync.WaitGroup
 	defer late.Wait() // before the bubble's root returns
+	stray := false
 	s.Respond = func(p snref.Pkt) []snref.Pkt {
+		if p.Type == snref.DISCONNECT && p.Duration > 0 && stray {
+			stray = false
+			return append([]snref.Pkt{{Type: snref.PINGRESP}}, g.Answer(p)...)
+		}
 		if p.Type == snref.PINGREQ && len(p.ClientID) == 0 {
 			if dropsLeft == 0 { // a new ping
 				if pingNo < len(c.PingDrops) {
@@ -150,6 +163,10 @@ func runC33(c c33Case) (r vf.Result) {
 		dg := s.ClientDatagrams()
 		if n := len(dg); n > 0 && dg[n-1].SN != nil && dg[n-1].SN.Type == snref.PINGREQ && s.Now()-dg[n-1].Ns <= 1e9 {
 			near = true
+		}
+		stray = op.Stray
+		if op.Stray {
+			r.Label("stray-pingresp-during-sleep-handshake")
 		}
 		cs := s.Go(*op.Call)
 		max := 5*time.Second*time.Duration(c.Retries+2) + time.Duration(op.Call.DurMs)*time.Millisecond + 70*time.Second
@@ -259,7 +276,7 @@ func checkKeepalive(c c33Case, s *clsim.Sim, r *vf.Result) {
 func TestC33(t *testing.T) {
 	vf.Check(t, vf.Prop[c33Case]{
 		ID: "C33", Name: "client-keepalive", Bubble: true, DeadlockIsViolation: true,
-		Rule: "real client with KeepAlive 2/3/5/30 s (RetryDelay 1 s, RetryCount 1-3) against a scripted gateway that answers everything but drops 0..RetryCount transmissions of selected keep-alive pings and, in half of the cases, answers selected pings 300-999 ms late (below RetryDelay); 2-10 API calls (Sleep of 1-7 s, Disconnect, Publish QoS 0-2, Subscribe, Register, Ping, reconnect) separated by time advances drawn relative to the keep-alive period (K, K/2, K/4, 2K, 3K, 1 s; exactly, +-1 ns, +-1 ms, +0.5 s). Non-trivial = an API call starts within 1 s after a keep-alive PINGREQ, or a ping transmission is dropped or answered late; distinct by case.",
+		Rule: "real client with KeepAlive 2/3/5/30 s (RetryDelay 1 s, RetryCount 1-3) against a scripted gateway that answers everything but drops 0..RetryCount transmissions of selected keep-alive pings and, in half of the cases, answers selected pings 300-999 ms late (below RetryDelay); 2-10 API calls (Sleep of 1-7 s - in a quarter of them a late duplicate PINGRESP arrives between the client's DISCONNECT and the gateway's answer -, Disconnect, Publish QoS 0-2, Subscribe, Register, Ping, reconnect) separated by time advances drawn relative to the keep-alive period (K, K/2, K/4, 2K, 3K, 1 s; exactly, +-1 ns, +-1 ms, +0.5 s). Non-trivial = an API call starts within 1 s after a keep-alive PINGREQ, or a ping transmission is dropped or answered late; distinct by case.",
 		Assumptions: []string{"keep-alive PINGREQs carry no client ID, the wake-up PINGREQ carries it; Client.Ping() is called only while the client is active and has returned before the next call starts, so a PINGREQ without client ID seen while asleep or disconnected is a keep-alive ping (or a retransmission of one)", "\"once per KeepAlive period\" is read as: every complete period of KeepAlive length, counted from the instant the client became active, contains a PINGREQ datagram (first transmission or retransmission, keep-alive or Ping()), with 5 ms of tolerance at the end; a sliding window is not demanded (a tick that joins an application ping sent just before it sends nothing itself)", "the awake state (after Sleep returned, before reconnecting) is not judged"},
 		Gen:         genC33,
 		Run:         runC33,
